@@ -336,6 +336,7 @@ PANIC_FNS = ("core::panicking::panic", "core::panicking::panic_fmt", "core::pani
              "std::rt::begin_panic", "core::panicking::panic_explicit", "core::panicking::assert_failed", "core::option::expect_failed", "core::result::unwrap_failed")
 
 
+WATCH = {"blake3::derive_key"}
 ROOT_PRESERVING = ("deref", "deref_mut", "as_mut", "as_ref", "get_mut", "as_deref_mut", "as_pin_mut", "get_unchecked_mut", "unwrap", "expect",
                    "as_mut_slice", "borrow_mut", "get_or_insert_with", "insert", "project")
 
@@ -377,6 +378,9 @@ class Analysis:
         self.visited_fns = set()
         self.events = defaultdict(list)   # fn -> [(block, kind, payload)]  e.g. need-more returns for C04
         self._rooted_stack = []
+        self.view_of = {}                      # slice object -> (parent object, start, end) for range-indexed views
+        self.copies = defaultdict(list)        # fn -> [(block, destination object, source object)] of copy_from_slice
+        self.watch = defaultdict(list)         # fn -> [(block, callee name, [argument objects])] for calls named in WATCH
         self.len_guards = defaultdict(dict)   # fn -> {switch block: True if some context compares a length of the decoder's source buffer}
         self.enum_variants = {}
         for it in prog.items:
@@ -1050,6 +1054,8 @@ class Analysis:
             st.obj[dkey] = o
             return o
 
+        if name in WATCH or c.path in WATCH:
+            self.watch[body.defp].append((blk, name, [self.arg_obj(st, body, t, i, create=False) for i in range(len(t["args"]))]))
         is_buf_trait = c.trait is not None and last_seg(c.trait) in ("Buf", "BufMut")
         selfs = c.self_s
         if name == "FromResidual::from_residual":
@@ -1232,7 +1238,7 @@ class Analysis:
                     self.need(st, body, blk, "slice-range-start", 0, sp, L.sub(a), f"range start {a} within the {L} bytes of `{o}`", ctx)
                 lo = a if a is not None else Lin(0)
                 hi = b if b is not None else L
-                new_obj(hi.sub(lo), "sl")
+                self.view_of[new_obj(hi.sub(lo), "sl")] = (o, lo, hi)
             elif idx_int is not None:
                 self.need(st, body, blk, "index", 0, sp, L.sub(idx_int).sub(Lin(1)), f"index {idx_int} within the {L} bytes of `{o}`", ctx)
             else:
@@ -1258,6 +1264,7 @@ class Analysis:
             if d is None or s_ is None:
                 self.oblige(body, blk, "copy_from_slice", 0, sp, False, "copy_from_slice with untracked operands", ctx)
                 return
+            self.copies[body.defp].append((blk, d, s_))
             Ld, Ls = self.length(st, d), self.length(st, s_)
             ok = self.holds(st, Ld.sub(Ls)) and self.holds(st, Ls.sub(Ld))
             self.oblige(body, blk, "copy_from_slice", 0, sp, ok, f"copy_from_slice needs equal lengths: dst {Ld}, src {Ls}", ctx)
